@@ -72,6 +72,21 @@ fn protocol_table() -> Vec<(&'static str, ControlMessage, Vec<OwnedTerm>)> {
             v.push(a("ToPid"));
             v
         }),
+        // the same operations put together through the public helper constructors (arguments named as in the protocol)
+        ("helper:link", C::link(a("FromPid"), a("ToPid")), t(1, &["FromPid", "ToPid"])),
+        ("helper:send", C::send(a("Unused"), a("ToPid")), t(2, &["Unused", "ToPid"])),
+        ("helper:exit", C::exit(a("FromPid"), a("ToPid"), a("Reason")), t(3, &["FromPid", "ToPid", "Reason"])),
+        ("helper:unlink", C::unlink(a("FromPid"), a("ToPid")), t(4, &["FromPid", "ToPid"])),
+        ("helper:reg_send", C::reg_send(a("FromPid"), a("Unused"), a("ToName")), t(6, &["FromPid", "Unused", "ToName"])),
+        ("helper:group_leader", C::group_leader(a("FromPid"), a("ToPid")), t(7, &["FromPid", "ToPid"])),
+        ("helper:exit2", C::exit2(a("FromPid"), a("ToPid"), a("Reason")), t(8, &["FromPid", "ToPid", "Reason"])),
+        ("helper:monitor_p", C::monitor_p(a("FromPid"), a("ToProc"), a("Ref")), t(19, &["FromPid", "ToProc", "Ref"])),
+        ("helper:demonitor_p", C::demonitor_p(a("FromPid"), a("ToProc"), a("Ref")), t(20, &["FromPid", "ToProc", "Ref"])),
+        ("helper:monitor_p_exit", C::monitor_p_exit(a("FromProc"), a("ToPid"), a("Ref"), a("Reason")), t(21, &["FromProc", "ToPid", "Ref", "Reason"])),
+        ("helper:send_sender", C::send_sender(a("FromPid"), a("ToPid")), t(22, &["FromPid", "ToPid"])),
+        ("helper:payload_exit", C::payload_exit(a("FromPid"), a("ToPid")), t(24, &["FromPid", "ToPid"])),
+        ("helper:payload_exit2", C::payload_exit2(a("FromPid"), a("ToPid")), t(26, &["FromPid", "ToPid"])),
+        ("helper:payload_monitor_p_exit", C::payload_monitor_p_exit(a("FromProc"), a("ToPid"), a("Ref")), t(28, &["FromProc", "ToPid", "Ref"])),
     ]
 }
 
@@ -233,7 +248,7 @@ fn check_tuple(ctx: &Ctx, elems: Vec<OwnedTerm>, origin: &str) {
 }
 
 pub fn run(ctx: &Ctx) {
-    ctx.rule("cases = tuples {Tag, F1..Fn} for every tag 0..255 x arity 1..10 x random field terms + every structured variant with random fields + unlink ids over the 64-bit range (and beyond) + non-tuples / empty tuples / bad heads + the protocol table; distinct = distinct (parsed variant, arity) and rejection classes");
+    ctx.rule("cases = tuples {Tag, F1..Fn} for every tag 0..255 x arity 1..10 x random field terms + every structured variant with random fields + unlink ids over the 64-bit range (and beyond) + non-tuples / empty tuples / bad heads + the protocol table (each operation built from its variant and, where there is one, through its public helper constructor); distinct = distinct (parsed variant, arity) and rejection classes");
     ctx.assume("protocol table transcribed from erl_dist_protocol (DESIGN.md appendix A): SPAWN_REQUEST has 6 elements (arguments travel as payload), ALIAS_SEND_TT = 34");
     let mut rng = Rng::derive(ctx.seed, 8, 1);
     // (1) protocol table
